@@ -107,6 +107,9 @@ theorem figures_exact_for_selection (cfg : Config) (sel : Spec.Selection) (hw : 
     Targets.Selector.pattern (Targets.Pos.term "http://e/s") "http://www.w3.org/1999/02/22-rdf-syntax-ns#type" Targets.Pos.focus
 #guard Targets.parseSelector [("ex", "http://e/")] "ex:n1" == Targets.Selector.node "http://e/n1"
 #guard Targets.parseLabel [("ex", "http://e/")] "ex:S" == some "%http://e/S"
+-- (tests, not theorems) a local name may contain ':' - the label is cut at the FIRST colon only; an unknown prefix is an error
+#guard Targets.parseLabel [("ex", "http://e/")] "ex:Person:adult" == some "%http://e/Person:adult"
+#guard Targets.parseLabel [("ex", "http://e/")] "zz:S" == none
 #guard Targets.splitFixedLine "  <http://e/n>@<http://e/S>, " == some (some ("<http://e/n>", "<http://e/S>"))
 
 /- non-vacuity of the selector theorems -/
